@@ -1483,6 +1483,11 @@ class ModelBuilder:
                     scenario_idx = self._get_scenario_index(obj.project, scenario_id)
                     if scenario_idx is not None and attr_data and isinstance(attr_data, tuple):
                         attr_key, attr_value = attr_data
+                        if attr_key in ("duration", "length") and isinstance(attr_value, str):
+                            # Like the same statement without a scenario prefix: 'duration' and
+                            # 'length' are parsed but not scheduled yet. The raw text ("3d") must
+                            # not reach the scheduler, which compares these attributes with numbers.
+                            continue
                         obj[(attr_key, scenario_idx)] = attr_value
                         # Nested scenarios inherit the value from the nearest enclosing scenario
                         # that carries a line of its own (whatever the order in the file)
